@@ -169,6 +169,24 @@ theorem Ext.fuel_linear {ty : String → Bool} : ∀ (e : Ext), WFExt ty e → e
       simp only [Ext.fuel, Ext.ntoks, FDefP.fuel, FDefP.ntoks, FD.fuel, FD.ntoks, hpv, PLV.fuel, PLV.ntoks, PL.fuel, PL.ntoks]; omega
     | void =>
       simp only [Ext.fuel, Ext.ntoks, FDefP.fuel, FDefP.ntoks, FD.fuel, FD.ntoks, hpv, PLV.fuel, PLV.ntoks]; omega
+  | .proto p, hw => by
+    have hw' : WFProto p := hw
+    have h3 := restFuel_linear p.more hw'.more
+    have hne : 1 ≤ p.specs.length := by
+      have := DeclParse.sawAfter_ne_nil hw'.sawType
+      cases hsp : p.specs with
+      | nil => exact absurd hsp this
+      | cons t r => simp
+    have hp := hw'.params
+    cases hpv : p.fd.params with
+    | named l =>
+      rw [hpv] at hp
+      have hp' : WFPL l := hp
+      have h1 := Param.fuel_linear hp'.first
+      have h2 := paramsRestFuel_linear l.more hp'.more
+      simp only [Ext.fuel, Ext.ntoks, Proto.fuel, Proto.ntoks, FD.fuel, FD.ntoks, hpv, PLV.fuel, PLV.ntoks, PL.fuel, PL.ntoks]; omega
+    | void =>
+      simp only [Ext.fuel, Ext.ntoks, Proto.fuel, Proto.ntoks, FD.fuel, FD.ntoks, hpv, PLV.fuel, PLV.ntoks]; omega
 
 /-- **the recursion budget of a whole translation unit is linear in the number of its tokens** -/
 theorem extsFuel_linear {ty : String → Bool} : ∀ (l : List Ext), (∀ e ∈ l, WFExt ty e) → extsFuel l ≤ 17 * extsNtoks l + 1
@@ -199,6 +217,25 @@ theorem extsFlat_length : ∀ (l : List Ext), (extsFlat l).length = extsNtoks l
           omega
         | void =>
           simp [Ext.flat, Ext.ntoks, FDefP.flat, FDefP.ntoks, FD.flat, FD.ntoks, hpv, PLV.flat, PLV.ntoks, bodyFlat, SL.flat_length]
+          omega
+      | proto p =>
+        have hp : ∀ l : List Param, (paramsRestFlat l).length = paramsRestNtoks l := by
+          intro l
+          induction l with
+          | nil => rfl
+          | cons p r ih => simp [paramsRestFlat, paramsRestNtoks, Param.flat_length, ih]; omega
+        have h2 : ∀ l : List IDc, (restFlat l).length = restNtoks l := by
+          intro l
+          induction l with
+          | nil => rfl
+          | cons it r ih => simp [restFlat, restNtoks, ih, it.flat_length]; omega
+        cases hpv : p.fd.params with
+        | named l =>
+          simp [Ext.flat, Ext.ntoks, Proto.flat, Proto.ntoks, FD.flat, FD.ntoks, hpv, PLV.flat, PLV.ntoks, PL.flat, PL.ntoks,
+            Param.flat_length, hp, h2]
+          omega
+        | void =>
+          simp [Ext.flat, Ext.ntoks, Proto.flat, Proto.ntoks, FD.flat, FD.ntoks, hpv, PLV.flat, PLV.ntoks, h2]
           omega
     simp [extsFlat, extsNtoks, this, extsFlat_length r]
 
